@@ -179,7 +179,7 @@ theorem layer_lock_facts :
     holdsForWholeBody Verif.Gen.LockFacts.transactionCache_Get .read "mu" = true ∧
     holdsForWholeBody Verif.Gen.LockFacts.stateCache_commit .write "lock" = true ∧
     Verif.Gen.LockFacts.stateCache_commit.deferred = true ∧
-    Verif.Gen.LockFacts.stateCache_commit.accesses.all (fun a => a.sub == "bc.mu") = true ∧
+    Verif.Gen.LockFacts.stateCache_commit.accesses.all (fun a => a.sub == "arg0.mu") = true ∧  -- the lock of the block cache handed in (first parameter)
     Verif.Gen.LockFacts.stateCache_Get.lock = .none := by
   decide
 
